@@ -173,8 +173,17 @@ type StopResult struct {
 // Stop cancels the context and waits for Run to return. In the faketime build the clock is opened so that
 // a Stop that (wrongly) waits for a timer shows up as consumed virtual time instead of a hang.
 func (in *Instance) Stop(realWatchdog time.Duration) StopResult {
-	t0 := vtime.Now()
 	in.cancel()
+	return in.AwaitReturn(realWatchdog)
+}
+
+// Cancel cancels the context handed to Run (idempotent).
+func (in *Instance) Cancel() { in.cancel() }
+
+// AwaitReturn waits for Run to return WITHOUT cancelling its context: for runs that end by themselves (a service that
+// fails to start makes Run stop the services already started and return false). Measured like Stop.
+func (in *Instance) AwaitReturn(realWatchdog time.Duration) StopResult {
+	t0 := vtime.Now()
 	var res StopResult
 	// phase 1: frozen clock — a prompt Stop needs no virtual time at all
 	ok := Poll(realWatchdog/2, func() bool {
